@@ -341,8 +341,36 @@ pub fn mul_pair(r: &mut Rng) -> (u128, u128) {
     }
 }
 
+/// Quotients with a 1-3 digit integer part whose remainder CR, scaled by 10^ed2 for the fraction digits, is just above a
+/// multiple of 2^192: CR·10^ed2 = m·2^192 + (something far below the divisor·2^51).  The 256-by-128-bit long division then
+/// starts with a dividend of more than 192 bits whose three low words are small (its staged quotient estimate looks at
+/// three words).  CR = (m·2^W + s')/5^ed2 with W = 192 − ed2 and s' ≡ −m·2^W (mod 5^ed2): with K = ⌊2^W/5^ed2⌋ and
+/// R = 2^W mod 5^ed2 that is m·K + ⌊m·R/5^ed2⌋ + 1 + t.
+pub fn div_wide_remainder_pair(r: &mut Rng) -> (u128, u128) {
+    const K: [u128; 3] = [627710173538668076383578942, 62771017353866807638357894, 6277101735386680763835789];
+    const RR: [u128; 3] = [1493686072576025242202, 5403455909365405199226, 49267856685456628380863];
+    const F: [u128; 3] = [4656612873077392578125, 23283064365386962890625, 116415321826934814453125];   // 5^31, 5^32, 5^33
+    let i = r.below(3) as usize;                                   // ed2 = 31 + i: the integer part of the quotient has 3 − i digits
+    let k: u128 = match i { 0 => 100 + r.below(900), 1 => 10 + r.below(90), _ => 1 + r.below(9) } as u128;
+    let ymax = (P34 - 1) / (k + 1);                                // x = k·y + CR < (k+1)·y must stay below 10^34
+    // CR ≈ m·K must stay below y/9 or so (the quotient of CR·10^ed2 by y stays below 2^100)
+    let mmax = (ymax / 10 / K[i]).max(1);
+    let m = 1 + (r.next() as u128) % mmax;
+    let t = if r.chance(1, 2) { r.below(1 << 20) as u128 } else { (r.next() as u128) % (1u128 << 40) };
+    let cr = m * K[i] + (m * RR[i]) / F[i] + 1 + t;
+    let ymin = cr * 9 + 1;
+    if ymin >= ymax { return div_pair_plain(r); }
+    let y = ymin + ((r.next() as u128) << 64 | r.next() as u128) % (ymax - ymin);
+    let x = k * y + cr;
+    let e = exponent(r) / 2;
+    (enc(r.chance(1, 2), x, e), enc(r.chance(1, 2), y, (e + r.range(-20, 20) as i32).clamp(EMIN, EMAX)))
+}
+
+fn div_pair_plain(r: &mut Rng) -> (u128, u128) { let x = finite(r); let (s, c, e) = decode_fin(finite(r)); (x, enc(s, c, e / 2)) }
+
 pub fn div_pair(r: &mut Rng) -> (u128, u128) {
     if r.chance(1, 10) { return clamp_boundary_pair(r, false); }
+    if r.chance(1, 12) { return div_wide_remainder_pair(r); }
     match r.below(7) {
         0 => { // exact ties and short exact quotients
             let c1 = coeff_upto(r, 34);
@@ -420,8 +448,31 @@ pub fn fma_half_quantum_triple(r: &mut Rng) -> (u128, u128, u128) {
     (enc(r.chance(1, 2), c1, e1), enc(r.chance(1, 2), c2, e2.clamp(EMIN, EMAX)), z)
 }
 
+/// The top of the range: x·y a power of ten (or next to one) within a decade of the overflow threshold 10^6145, and an addend of
+/// either sign a digit or two below the product's 34-digit window — at, just under or just over half a unit of the last place
+/// of the largest finite number.  Whether the sum overflows or comes back to (10^34 − 1)·10^emax is decided by that addend.
+pub fn fma_overflow_edge_triple(r: &mut Rng) -> (u128, u128, u128) {
+    let i = r.below(20) as u32;
+    let (a, b) = (r.below(15) as u32, r.below(15) as u32);
+    let tw: u128 = if r.chance(1, 6) { 1 } else { 0 };
+    let c1 = (1u128 << i) * pow10(a);
+    let c2 = 5u128.pow(i) * pow10(b) + tw;                 // c1·c2 = 10^(i+a+b) (+ c1)
+    let k = (i + a + b) as i32;
+    let top = 6144 + r.below(3) as i32;                    // the product's leading digit stands at 10^top
+    let pe = top - k;
+    let e1 = (pe / 2 + r.range(-50, 50) as i32).clamp(EMIN, EMAX);
+    let e2 = (pe - e1).clamp(EMIN, EMAX);
+    let delta = 33 + r.below(5) as i32;                    // the addend's leading digit stands at 10^(top − delta)
+    let q = 1 + r.below(34) as u32;
+    let half = 5 * pow10(q - 1);
+    let cz = match r.below(7) { 0 => half, 1 => half + 1, 2 => if q > 1 { half - 1 } else { 4 }, 3 => pow10(q) - 1, 4 => pow10(q - 1), 5 => 9 * pow10(q - 1), _ => coeff(r, q) };
+    let ez = (top - delta - (q as i32 - 1)).clamp(EMIN, EMAX);
+    (enc(r.chance(1, 2), c1, e1), enc(r.chance(1, 2), c2, e2), enc(r.chance(1, 2), cz, ez))
+}
+
 pub fn fma_triple(r: &mut Rng) -> (u128, u128, u128) {
     if r.chance(1, 16) { return fma_half_quantum_triple(r); }
+    if r.chance(1, 16) { return fma_overflow_edge_triple(r); }
     match r.below(15) {
         13 | 14 => fma_subnormal_product_triple(r),
         10 | 11 | 12 => fma_tail_triple(r),
